@@ -1,0 +1,21 @@
+//go:build verif
+
+package conf
+
+// Machine-checked contracts for /verif (govc). Comment-only: compiled only with -tags verif, adds no code.
+
+//@ func (d Credential) Check
+//@   property C01
+//@   modifies nothing
+//@   ensures result == credCheck(string(d), guess)
+
+//@ func (n IPNetwork) Contains
+//@   property C01
+//@   modifies nothing
+//@   ensures result == netContains(net.IPNet(n), ip)
+
+//@ func (d IPNetworks) Contains
+//@   property C01
+//@   modifies nothing
+//@   loop 1 invariant 0 <= _i && _i <= len(d) && forall(k, 0, _i, !netContains(net.IPNet(d[k]), ip))
+//@   ensures result == ipsContain(d, ip)
